@@ -2,11 +2,12 @@
 import itertools, math, os
 import vlib
 from vlib import Toks, lst, f2h, h2f
+from props import c13_translate
 
 ID = "C13"
 LEVEL = "proof"
 HARNESS = "c13"
-LEAN_MODULES = ["NanoVerif.Props.C13"]
+LEAN_MODULES = ["NanoVerif.Props.C13"]   # imports Proofs/TunerGenWalkLen, TunerGenWalk, TunerGen (Gen/TunerSpace)
 NS = "NanoVerif.C13."
 OBLIGATIONS = [NS + t for t in [
     # building blocks
@@ -28,7 +29,28 @@ OBLIGATIONS = [NS + t for t in [
     # warm starts (result_t::closest_trial as ml::tune calls it), order of the returned steps
     "closestTrial_frame", "closestTrial_lt", "closestTrial_zero", "closestTrial_nearest", "tune_reads_only_earlier",
     "step_order_strict_weak",
+]] + ["NanoVerif.Tuner." + t for t in [
+    # translation round: the model text IS the text regenerated from /repo (Gen/TunerSpace.lean, c13_translate.py)
+    "model_make_is_generated", "model_toSurrogate_is_generated", "model_fromSurrogate_is_generated", "model_closestScan_is_generated",
+    "model_closestGridPoint_is_generated", "model_closestGridValue_is_generated",
+    "model_minOf_is_generated", "model_maxOf_is_generated", "model_avgOf_is_generated",
+    "model_evaluate_is_generated", "model_combos_is_generated", "model_addScaled_is_generated", "model_inGrid_is_generated",
+    "model_tunerOptimize_is_generated", "model_optimize_is_generated", "model_step_coarse_is_generated", "model_step_main_is_generated", "surrogate_header_is_local",
+    "model_quadLen_is_generated", "model_quadDim_is_generated", "model_quadSize_is_generated",
+    "model_featPairIdx_is_generated", "model_gradPairIdx_is_generated", "model_valuePairIdx_is_generated",
+    "model_quadTerms_is_generated", "model_quadValue_is_generated", "model_quadGrad_is_generated",
+    "walk_eq_zip", "model_quadValue_is_generated_walk", "model_quadGrad_is_generated_walk",
+    "two_mul_pairIdx_length", "model_quadValue_walk_of_assert", "model_quadGrad_walk_of_assert",
+    "model_trialValue_is_generated", "model_optimumTrial_is_generated", "model_closestTrial_is_generated", "model_threadCallback_is_generated",
+    "model_tune_counts_is_generated",
 ]]
+
+
+def translate():
+    """Gen/TunerSpace.lean: param_space_t (criticals, maps, arg-min loop), igrid helpers, local_search arithmetic, the three loop headers, the
+    surrogate's index walks, result_t's arg-min scans, the index arithmetic of ml::tune's thread_callback"""
+    return c13_translate.translate()
+
 TRUSTED = [
     "Lean 4.33.0 kernel; Mathlib modules imported by NanoVerif/Proofs/Tuner*.lean and NanoVerif/Props/C13.lean",
     "axioms: at most propext, Classical.choice, Quot.sound (audited per theorem on every run)",
@@ -41,6 +63,12 @@ TRUSTED = [
     "Float.log10 / Float.pow of the Lean runtime and std::log10 / std::pow call the same libm",
     "std::sort returns a sorted permutation (SortSpec); pool_t::map runs every index exactly once (= C17)",
     "tools/props/c13.py generator + direct monitors; harness/c13.cpp; g++/libstdc++/Eigen",
+    "tools/props/c13_translate.py: the translator of the param_space_t constructor's criticals, param_space_t::to_surrogate / from_surrogate / closest_grid_point_from_surrogate / "
+    "closest_grid_value_from_surrogate, the arithmetic of nano::local_search, the loop headers of tuner_t::optimize and both do_optimize, "
+    "the number-of-coefficients formulas and the loop nests / per-pair updates of the quadratic surrogate, make_min/max/avg_igrid, "
+    "the arg-min loops of result_t::optimum_trial / closest_trial and the index arithmetic of ml::tune's thread_callback into Gen/TunerSpace.lean "
+    "(reads `for` nests as the list of index pairs in iteration order; the `k++` walk is checked syntactically: one coefficient per pair); "
+    "Proofs/TunerGen.lean proves the hand-written model text equal to it for every scalar type",
 ]
 ASSUMPTIONS = [
     "the two L-BFGS runs of a surrogate iteration (fit of the quadratic, minimisation of the fitted quadratic) are the oracle "
